@@ -479,6 +479,7 @@ struct ZSTD_CCtx_s {
     /* Buffer for output from external sequence producer */
     ZSTD_Sequence* extSeqBuf;
     size_t extSeqBufCapacity;
+    size_t extSeqBlockPosInFrame;   /* position, in the frame, of the block ZSTD_buildSeqStore is working on */
 };
 
 typedef enum { ZSTD_dtlm_fast, ZSTD_dtlm_full } ZSTD_dictTableLoadMethod_e;
